@@ -240,6 +240,33 @@ def run(tier: str, seed: int) -> int:
         for value in ("some text", ""):
             in_context("component-text-key", n, {"suit-common": {"suit-components": [["M", 1]]}, "suit-text": {"suit-digest-algorithm-id": "cose-alg-sha-256"}},
                        envelope_patch={"suit-text": {"en": {'["M", 1]': {n: value}}}}, locate=lambda e: next(iter(e["suit-text"]["en"]['["M", 1]']), None))
+    # CWT claims and COSE header keys *in context*: inside the payload / the two header buckets of a COSE_Sign1 in the authentication wrapper of a
+    # whole envelope (the node classes on their own may be fine while the structure around them hands the bytes to another alternative, C08-s)
+    def sign1_env(payload, prot, unprot):
+        return {"suit-authentication-wrapper": {"SuitDigest": {"suit-digest-algorithm-id": "cose-alg-sha-256"},
+                                                "SuitAuthentication0": {"CoseSign1Tagged": {"protected": prot, "unprotected": unprot, "payload": payload, "signature": "00" * 64}}}}
+
+    def sign1_of(e):
+        w = e["suit-authentication-wrapper"]
+        k = next((k for k in w if k.startswith("SuitAuthentication")), None)
+        return (w[k] or {}).get("CoseSign1Tagged", {}) if k is not None else {}
+
+    def payload_of(e):
+        pl = sign1_of(e).get("payload")
+        return next(iter(pl), None) if isinstance(pl, dict) else pl
+    if "SuitCwtPayload" in spaces:
+        for n in spaces["SuitCwtPayload"][2]:
+            child = spaces["SuitCwtPayload"][3].get(n)
+            arg = sample_for(descs, order, child) if child is not None else 0
+            in_context("cwt-claim-in-sign1", n, {}, envelope_patch=sign1_env({n: arg}, {"suit-cose-algorithm-id": "cose-alg-es-256"}, {}), locate=payload_of)
+    if "SuitHeaderMap" in spaces:
+        for n in spaces["SuitHeaderMap"][2]:
+            child = spaces["SuitHeaderMap"][3].get(n)
+            arg = sample_for(descs, order, child) if child is not None else 0
+            for bucket in ("protected", "unprotected"):
+                env_p = sign1_env(None, {n: arg} if bucket == "protected" else {"suit-cose-algorithm-id": "cose-alg-es-256"}, {n: arg} if bucket == "unprotected" else {})
+                in_context("header-key-in-sign1:" + bucket, n, {}, envelope_patch=env_p,
+                           locate=lambda e, b=bucket, nm=n: (nm if isinstance(sign1_of(e).get(b), dict) and nm in sign1_of(e)[b] else str(sign1_of(e).get(b))))
     # tags
     for cname, t in reg["tags"]:
         cls = next((c for c in order if c.__name__ == cname), None)
